@@ -936,6 +936,7 @@ class LDAPServer(LDAPSession):
         self,
         msg: LDAPMessage,
     ) -> int:
+        pending = len(self._outgoing_buffer)
         msg_id = super()._send(msg)
 
         if not isinstance(msg, UnbindRequest):
@@ -943,6 +944,8 @@ class LDAPServer(LDAPSession):
                 if not isinstance(msg, (SearchResultEntry, SearchResultReference)):
                     self._outstanding_requests.remove(msg_id)
             else:
+                # The response is refused, do not leave its bytes in the buffer.
+                del self._outgoing_buffer[pending:]
                 raise LDAPError(f"Message {msg} is a response to an unknown request")
 
         return msg_id
